@@ -43,8 +43,8 @@ Fixpoint keeps (obs : list cobs) (avail : list Z) : list bool :=
 
 Definition participates (o : cobs) : bool := match ob_hops o with [] => false | _ => true end.
 
-(* one value per participating client: the last offset it measured, 0 if every exchange failed *)
-Definition ob_value (o : cobs) : Z := match rev (ob_vals o) with [] => 0 | v :: _ => v end.
+(* one value per participating client that produced a measurement: the last offset it measured *)
+Definition ob_meas (o : cobs) : list Z := match rev (ob_vals o) with [] => [] | v :: _ => [v] end.
 
 Definition sticky_ok (fps : list Z) (o : cobs) (keep : bool) : bool :=
   if keep then
@@ -62,7 +62,7 @@ Fixpoint all2 {A B} (f : A -> B -> bool) (a : list A) (b : list B) : bool :=
   | _, _ => false
   end.
 
-(* cls: 0 = offset reported, 1 = errNoPath, 2 = another error *)
+(* cls: 0 = offset reported, 1 = errNoPath, 4 = errNoMeasurement, anything else = another error / panic *)
 Definition C15_round_ok (fps : list Z) (obs : list cobs) (cls off : Z) : bool :=
   let np := Z.of_nat (length fps) in
   let nc := Z.of_nat (length obs) in
@@ -76,11 +76,13 @@ Definition C15_round_ok (fps : list Z) (obs : list cobs) (cls off : Z) : bool :=
   && (Z.of_nat (length parts) =? Z.min nc np)
   (* sticky / reset clause *)
   && all2 (sticky_ok fps) obs (keeps obs fps)
-  (* error exactly when nobody can take part *)
+  (* errNoPath exactly when nobody can take part; errNoMeasurement exactly when no participant measured anything;
+     otherwise the reported offset is the fault-tolerant midpoint over one value per participant that measured *)
   && (if Z.min nc np =? 0 then cls =? 1
-      else (cls =? 0)
-           (* the reported offset is the fault-tolerant midpoint over one value per participant *)
-           && match ftm (map ob_value parts) with Some m => off =? m | None => false end).
+      else match ftm (flat_map ob_meas parts) with
+           | Some m => (cls =? 0) && (off =? m)
+           | None => cls =? 4
+           end).
 
 (* ---- single draws and samples (crypto.RandIntn, crypto.Sample) ---- *)
 (* a draw below n >= 2 is made from the generator's output: at least one read, and the value is the
